@@ -782,8 +782,21 @@ def p1(cx):
         I = Interp(m)
         C = I.global_lookup(*spec.split("::"))
         registry = {_Op("weak-buffer-1")}
-        kern = {"k": _Op("compiled-kernel")}
+        # the kernels live in the container class the context's __init__ creates (KernelDict)
+        KD = I.global_lookup("context", "KernelDict")
+        kern = I.call(KD, [], {})
+        kern.attrs["k"] = _Op("compiled-kernel")
         live = {"_buffers": registry, "_kernels": kern, "omp_num_threads": 0, "_cffi_verbose": False, "minimum_alignment": 8, "extra_attr": _Op("plain")}
+        # attributes that hold objects of a compiled module (cffi functions / libraries): taken from the source -- every
+        # `self.<attr> = <something>.lib.<...>` / `ffi...` assignment in a method of the class
+        unpicklable = {}
+        for mname, fn_ in ms.items():
+            for st_ in own_nodes(fn_):
+                if isinstance(st_, ast.Assign) and len(st_.targets) == 1 and isinstance(st_.targets[0], ast.Attribute) and norm(st_.targets[0].value) == "self":
+                    vtxt = norm(st_.value)
+                    if ".lib." in vtxt or vtxt.startswith("ffi") or "ffi_interface" in vtxt and "cast" not in vtxt:
+                        unpicklable[st_.targets[0].attr] = _Op(f"cffi object ({vtxt[:40]})")
+        live.update(unpicklable)
         inst = _Obj("instance", dict(live), cls=C)
         out = {}
 
@@ -791,7 +804,7 @@ def p1(cx):
             out["state"] = I.call(I.getattr(inst, "__getstate__"), [], {})
             out["after"] = dict(inst.attrs)
             out["reg_after"] = set(registry)
-            out["kern_after"] = dict(kern)
+            out["kern_after"] = dict(kern.attrs)
             new = _Obj("instance", {}, cls=C)
             I.call(I.getattr(new, "__setstate__"), [out["state"]], {})
             out["new"] = new
@@ -799,7 +812,7 @@ def p1(cx):
         res = I.explore(thunk, max_paths=8)
         cx.recog(len(res) == 1 and res[0]["exc"] is None, ms["__getstate__"], f"{c.name}.__getstate__/__setstate__: evaluation did not end in one normal path ({res[0]['exc'] if res else ''})")
         n += 1
-        same = set(out["after"]) == set(live) and all(out["after"][k] is live[k] for k in live) and out["reg_after"] == registry and out["kern_after"] == kern
+        same = set(out["after"]) == set(live) and all(out["after"][k] is live[k] for k in live) and out["reg_after"] == registry and out["kern_after"] == dict(kern.attrs)
         gone = sorted(set(live) - set(out["after"]))
         cx.check(same, None, construct=f"{c.name}.__getstate__ leaves the live context as it was", detail="the state dict is a copy of the instance dict",
                  bad_detail=f"pickling changes the live context: attributes removed {gone}" if gone else "pickling changes the live context (an attribute or the kernel/buffer registry is edited in place)", anchor=f"{spec}.__getstate__", sub="P2")
@@ -808,16 +821,22 @@ def p1(cx):
         if "_buffers" in st:
             cx.note(None, detail=f"{c.name}: the weak registry of live buffers travels with the state (re-created by __setstate__ anyway; not judged)", anchor=f"{spec}.__getstate__")
         if spec.endswith("ContextCpu"):
-            cx.check(isinstance(st, dict) and not st.get("_kernels"), None, construct="ContextCpu: compiled kernels are not part of the state", detail="cffi modules are not picklable", bad_detail="compiled kernels are pickled with the context", anchor=f"{spec}.__getstate__", sub="P3")
+            sk = st.get("_kernels")
+            empty = sk is None or (isinstance(sk, dict) and not sk) or (isinstance(sk, _Obj) and not [k_ for k_ in sk.attrs if not k_.startswith("__")])
+            cx.check(isinstance(st, dict) and empty, None, construct="ContextCpu: compiled kernels are not part of the state", detail="cffi modules are not picklable", bad_detail="compiled kernels are pickled with the context", anchor=f"{spec}.__getstate__", sub="P3")
+            leaked = sorted(k_ for k_, v_ in st.items() if any(v_ is u_ for u_ in unpicklable.values()))
+            cx.check(not leaked, None, construct=f"ContextCpu: attributes holding objects of a compiled module {sorted(unpicklable)} are not part of the state", detail="cffi functions cannot be pickled", bad_detail=f"the state carries {leaked}: once a kernel has been built (OpenMP context) every object of this context is unpicklable", anchor=f"{spec}.__getstate__", sub="P3")
         na = out["new"].attrs
-        missing = sorted(set(live) - set(na))
+        missing = sorted(set(live) - set(na) - set(unpicklable))
         cx.check(not missing, None, construct=f"{c.name}: restored context has every attribute again ({sorted(na)})", detail="a restored context is complete", bad_detail=f"a restored context lacks {missing}: a dropped attribute is not re-created by __setstate__", anchor=f"{spec}.__setstate__", sub="P3")
         rb = na.get("_buffers")
         cx.check(isinstance(rb, set) and not rb and rb is not registry, None, construct=f"{c.name}: restored _buffers is a fresh empty weak set", detail="buffer registry re-created empty", bad_detail="_buffers is not re-created as an empty weak set", anchor=f"{spec}.__setstate__", sub="P3")
-        plain = all(na.get(k) is live[k] or na.get(k) == live[k] for k in live if k not in ("_buffers", "_kernels"))
+        plain = all(na.get(k) is live[k] or na.get(k) == live[k] for k in live if k not in ("_buffers", "_kernels") and k not in unpicklable)
         cx.check(plain, None, construct=f"{c.name}: plain attributes restored unchanged", detail="state round trip", bad_detail="a plain attribute is changed by the state round trip", anchor=f"{spec}.__setstate__", sub="P3")
-        if "_kernels" in na:
-            cx.check(isinstance(na["_kernels"], dict), None, construct=f"{c.name}: restored _kernels is a mapping", detail="kernels attribute stays usable after unpickling", bad_detail="_kernels is not a mapping after unpickling", anchor=f"{spec}.__setstate__", sub="P3")
+        if "_kernels" in na and spec.endswith("ContextCpu"):
+            rk = na["_kernels"]
+            cx.check(isinstance(rk, _Obj) and rk.cls is KD, None, construct=f"{c.name}: restored _kernels is an (empty) container of the class the context uses (KernelDict)", detail="ctx.kernels.<name>(...) keeps working after unpickling",
+                     bad_detail=f"_kernels is {('a plain dict' if isinstance(rk, dict) else repr(rk))} after unpickling: kernels added later cannot be called as ctx.kernels.<name>", anchor=f"{spec}.__setstate__", sub="P3")
     cx.need(n >= 2, f"expected 2 context classes with state methods, found {n}")
     # P4 buffers stay allocators: no state methods, all allocator state is plain data
     xb = m.cls("context::XBuffer")
